@@ -230,6 +230,20 @@ def declaration_predicates(ctx, rule):
                     return
                 loops[role] = {"k": "Closure", "params": [n["pat"]], "body": cond}
     walk(its[0]["body"] if isinstance(its[0]["body"], dict) else {"k": "Block", "body": its[0]["body"]}, visit)
+    # the iterator-chain form: `attrs.iter_mut().filter(P).filter_map(|a| .. bind_attr_qname ..).collect()` /
+    # `.filter(P).for_each(|a| self.declare_ns(a))` - one statement with exactly one filter and the pass's call
+    for st in (its[0]["body"] if isinstance(its[0]["body"], list) else its[0]["body"].get("body", [])):
+        flt, calls = [], set()
+
+        def g2(m):
+            if m.get("k") == "MethodCall":
+                calls.add(m["m"])
+                if m["m"] == "filter" and len(m["args"]) == 1:
+                    flt.append(m["args"][0])
+        walk(st, g2)
+        role = "declare" if "declare_ns" in calls and "bind_attr_qname" not in calls else "bind" if "bind_attr_qname" in calls and "declare_ns" not in calls else None
+        if role and role not in loops and len(flt) == 1:
+            loops[role] = flt[0]
     if set(loops) != {"declare", "bind"}:
         raise AnchorMissing("process_namespaces: the declaring and the binding pass over the filtered attributes (found %s)" % sorted(loops))
     table = {}
